@@ -446,6 +446,173 @@ theorem lstsq_sound_aux (conj : K → K) (b : Basis K) (x y : List K) (hy : y.le
   intro j' _
   ring
 
+/-! ## Uniqueness: an answer of `lstsq` certifies that the modes are independent
+
+Row operations do not add equations either (`pivotStep_fwd`), so a common zero `(d, 0)` of the
+rows of the original system is a common zero of the rows of `[I | x]`, i.e. `d = 0`. -/
+
+theorem pivotStep_fwd (M M' : List (List K)) (k W : Nat) (v : List K) (h : pivotStep M k = some M')
+    (hW : ∀ r ∈ M, r.length = W) (hs : ∀ r ∈ M, dot r v = 0) : ∀ r ∈ M', dot r v = 0 := by
+  obtain ⟨p, hp, hpv, hfind, rfl⟩ := pivotStep_some M M' k h
+  have hpM : p ∈ M := List.mem_of_mem_drop hp
+  have hpn : dot (p.map (· / p.getD k 0)) v = 0 := by rw [dot_map_div, hs p hpM, zero_div]
+  have hE : ∀ r0, r0 ∈ M → dot (elimRow k (p.map (· / p.getD k 0)) r0) v = 0 := by
+    intro r0 hr0
+    rw [dot_elimRow k _ r0 v (by rw [List.length_map, hW r0 hr0, hW p hpM]), hpn, hs r0 hr0,
+      mul_zero, sub_zero]
+  intro r hr
+  simp only [List.mem_append, List.mem_map, List.mem_singleton] at hr
+  rcases hr with (⟨r0, hr0, rfl⟩ | rfl) | ⟨r0, hr0, rfl⟩
+  · exact hE r0 (List.mem_of_mem_take hr0)
+  · exact hpn
+  · exact hE r0 (List.mem_of_mem_drop (List.mem_of_mem_eraseP hr0))
+
+theorem foldlM_fwd (ks : List Nat) (M M' : List (List K)) (W : Nat) (v : List K)
+    (h : ks.foldlM pivotStep M = some M') (hW : ∀ r ∈ M, r.length = W)
+    (hs : ∀ r ∈ M, dot r v = 0) : ∀ r ∈ M', dot r v = 0 := by
+  induction ks generalizing M with
+  | nil =>
+    simp only [List.foldlM_nil] at h
+    cases h; exact hs
+  | cons k ks ih =>
+    rw [List.foldlM_cons] at h
+    cases h1 : pivotStep M k with
+    | none => rw [h1] at h; simp at h
+    | some M1 =>
+      rw [h1] at h
+      exact ih M1 (by simpa using h) (pivotStep_len M M1 k W h1 hW) (pivotStep_fwd M M1 k W v h1 hW hs)
+
+open Finset in
+/-- row `i` of a fully reduced matrix, as a linear form on `(d, 0)`, reads off `dᵢ` -/
+theorem red_final_hom (n : Nat) (M : List (List K)) (hR : Red n n M) (d : List K) (hd : d.length = n)
+    (i : Nat) (hin : i < n) : dot (M.getD i []) (d ++ [0]) = d.getD i 0 := by
+  have hi : i < M.length := by rw [hR.len]; exact hin
+  have hMi : M.getD i [] = M[i] := by
+    rw [List.getD_eq_getElem?_getD, List.getElem?_eq_getElem hi]; rfl
+  have hr : M[i] ∈ M := List.getElem_mem hi
+  have hlen : M[i].length = n + 1 := hR.row _ hr
+  have hv : (d ++ [0]).length = n + 1 := by rw [List.length_append, hd]; simp
+  have hrr : M[i] = (List.range (n + 1)).map (M[i].getD · 0) := by
+    have := list_eq_range_getD M[i] (0 : K)
+    rwa [hlen] at this
+  have hdot : dot M[i] (d ++ [0]) = ∑ c ∈ range (n + 1), M[i].getD c 0 * (d ++ [0]).getD c 0 := by
+    have := dot_range_list (n + 1) (fun c => M[i].getD c 0) (d ++ [0]) hv
+    rwa [← hrr] at this
+  rw [hMi, hdot, Finset.sum_range_succ, getD_append_len _ _ n hd, mul_zero, add_zero]
+  have : ∀ c ∈ range n, M[i].getD c 0 * (d ++ [0]).getD c 0 = if i = c then d.getD c 0 else 0 := by
+    intro c hc
+    have hc' : c < n := Finset.mem_range.mp hc
+    rw [getD_append_lt' _ _ c (by rw [hd]; exact hc'), ← hMi, hR.diag i hin c hc']
+    split <;> simp
+  rw [Finset.sum_congr rfl this, Finset.sum_ite_eq, if_pos (Finset.mem_range.mpr hin)]
+
+theorem gaussJordan_unique (n : Nat) (M : List (List K)) (x : List K) (hl : M.length = n)
+    (hW : ∀ r ∈ M, r.length = n + 1) (h : gaussJordan n M = some x) (d : List K) (hd : d.length = n)
+    (hs : ∀ r ∈ M, dot r (d ++ [0]) = 0) : ∀ i, i < n → d.getD i 0 = 0 := by
+  unfold gaussJordan at h
+  cases hf : (List.range n).foldlM pivotStep M with
+  | none => rw [hf] at h; simp at h
+  | some M' =>
+    have hR : Red n n M' := by
+      have hf' := hf
+      rw [List.range_eq_range'] at hf'
+      have := foldlM_red n n 0 M M' (by omega) hf'
+        ⟨hl, hW, fun i hi => by omega, fun r _ c hc => by omega⟩
+      simpa using this
+    have hs' := foldlM_fwd _ M M' (n + 1) _ hf hW hs
+    intro i hi
+    rw [← red_final_hom n M' hR d hd i hi]
+    apply hs'
+    have hiM : i < M'.length := by rw [hR.len]; exact hi
+    rw [List.getD_eq_getElem?_getD, List.getElem?_eq_getElem hiM]
+    exact List.getElem_mem hiM
+
+theorem getD_zipWith_sub (u v : List K) (h : u.length = v.length) (j : Nat) :
+    (List.zipWith (· - ·) u v).getD j 0 = u.getD j 0 - v.getD j 0 := by
+  induction u generalizing v j with
+  | nil =>
+    cases v with
+    | nil => simp
+    | cons b v => simp at h
+  | cons a u ih =>
+    cases v with
+    | nil => simp at h
+    | cons b v =>
+      cases j with
+      | zero => simp
+      | succ j =>
+        simp only [List.zipWith_cons_cons, List.getD_cons_succ]
+        exact ih v (by simpa using h) j
+
+open Finset in
+/-- **An answer of `lstsq` certifies independence**: if the Gauss–Jordan model answers for some
+right-hand side, the linear-combination map of the basis is injective (any field, any `conj`). -/
+theorem lstsq_unique (conj : K → K) (b : Basis K) (hb : WF b) (x y : List K)
+    (h : lstsq conj b y = some x) (v₁ v₂ : List K) (h₁ : v₁.length = b.nmodes)
+    (h₂ : v₂.length = b.nmodes) (hlc : linComb b v₁ = linComb b v₂) : v₁ = v₂ := by
+  simp only [lstsq] at h
+  have hM : List.zipWith (fun g hi => g ++ [hi])
+      ((adjRows conj b).map fun r => ((List.range b.nmodes).map (column b)).map fun c => dot r c)
+      (matvec (adjRows conj b) y) =
+      (List.range b.nmodes).map fun j =>
+        ((List.range b.nmodes).map fun j' => dot ((column b j).map conj) (column b j')) ++
+          [dot ((column b j).map conj) y] := by
+    unfold adjRows matvec
+    rw [List.map_map, List.map_map, List.zipWith_map, List.zipWith_self]
+    apply List.map_congr_left
+    intro j _
+    simp only [Function.comp, List.map_map]
+    rfl
+  rw [hM] at h
+  have hcol : ∀ j j', dot ((column b j).map conj) (column b j') =
+      ∑ i ∈ range b.npix, conj (ent b i j) * ent b i j' := by
+    intro j j'
+    unfold column
+    rw [List.map_map, dot_range_list b.npix _ _ (by simp)]
+    apply Finset.sum_congr rfl
+    intro i hi
+    rw [getD_map_range _ _ _ _ (Finset.mem_range.mp hi)]
+    rfl
+  -- the difference vector
+  have hdl : (List.zipWith (· - ·) v₁ v₂).length = b.nmodes := by simp [h₁, h₂]
+  have hdj : ∀ j, (List.zipWith (· - ·) v₁ v₂).getD j 0 = v₁.getD j 0 - v₂.getD j 0 :=
+    getD_zipWith_sub v₁ v₂ (by rw [h₁, h₂])
+  -- A d = 0
+  have hAd : ∀ i ∈ range b.npix,
+      ∑ j ∈ range b.nmodes, ent b i j * (List.zipWith (· - ·) v₁ v₂).getD j 0 = 0 := by
+    intro i hi
+    have hi' : i < b.npix := Finset.mem_range.mp hi
+    have := congrArg (fun l => l.getD i 0) hlc
+    simp only [linComb_fn b hb v₁ h₁, linComb_fn b hb v₂ h₂] at this
+    rw [getD_map_range _ _ _ _ hi', getD_map_range _ _ _ _ hi'] at this
+    simp only [hdj, mul_sub, Finset.sum_sub_distrib]
+    rw [this, sub_self]
+  have hs : ∀ r ∈ (List.range b.nmodes).map (fun j =>
+        ((List.range b.nmodes).map fun j' => dot ((column b j).map conj) (column b j')) ++
+          [dot ((column b j).map conj) y]),
+      dot r (List.zipWith (· - ·) v₁ v₂ ++ [0]) = 0 := by
+    intro r hr
+    obtain ⟨j, _, rfl⟩ := List.mem_map.mp hr
+    rw [dot_append_single _ _ _ _ (by simp [hdl]), dot_range_list b.nmodes _ _ hdl, mul_zero, add_zero]
+    simp only [hcol, Finset.sum_mul]
+    rw [Finset.sum_comm]
+    apply Finset.sum_eq_zero
+    intro i hi
+    have := hAd i hi
+    calc ∑ j' ∈ range b.nmodes, conj (ent b i j) * ent b i j' * (List.zipWith (· - ·) v₁ v₂).getD j' 0
+        = conj (ent b i j) * ∑ j' ∈ range b.nmodes, ent b i j' * (List.zipWith (· - ·) v₁ v₂).getD j' 0 := by
+          rw [Finset.mul_sum]; apply Finset.sum_congr rfl; intro j' _; ring
+      _ = 0 := by rw [this, mul_zero]
+  have hd0 := gaussJordan_unique b.nmodes _ x (by simp)
+    (by intro r hr; simp only [List.mem_map, List.mem_range] at hr; obtain ⟨j, _, rfl⟩ := hr; simp)
+    h _ hdl hs
+  rw [list_eq_range_getD v₁ 0, list_eq_range_getD v₂ 0, h₁, h₂]
+  apply List.map_congr_left
+  intro j hj
+  have := hd0 j (List.mem_range.mp hj)
+  rw [hdj] at this
+  exact sub_eq_zero.mp this
+
 /-! ## Completeness: independent modes are never answered with "dependent"
 
 A failed pivot search in column `k` exhibits a non-zero vector in the kernel of the coefficient
